@@ -4,6 +4,7 @@ import (
 	"context"
 	"errors"
 	"fmt"
+	"net/url"
 	"sync"
 	"testing"
 	"testing/synctest"
@@ -29,6 +30,9 @@ type c20Step struct {
 	DurMs     int    `json:"dur_ms,omitempty"`     // virtual milliseconds the attempt takes before it returns
 	IgnoreCtx bool   `json:"ignore_ctx,omitempty"` // the attempt does not watch the context while taking DurMs
 	CutRec    bool   `json:"cut_rec,omitempty"`    // recoverable flag returned when the attempt is cut short by the context
+	// OwnTimeout ("deadline" | "canceled"): the error of a failed attempt wraps context.DeadlineExceeded / Canceled
+	// although the flush context is alive: the integration's own client timeout fired (an http.Client.Timeout, a dial deadline)
+	OwnTimeout string `json:"own_timeout,omitempty"`
 }
 
 // c20Script: Steps[i] for attempt i, Tail for every attempt beyond.
@@ -129,6 +133,13 @@ func (n *c20Notifier) Notify(ctx context.Context, alerts ...*types.Alert) (bool,
 		retry, err = true, errC20Scripted
 	default:
 		retry, err = false, errC20Scripted
+	}
+	if err != nil && !cut && st.OwnTimeout != "" {
+		inner := context.DeadlineExceeded
+		if st.OwnTimeout == "canceled" {
+			inner = context.Canceled
+		}
+		err = fmt.Errorf("scripted failure: %w", &url.Error{Op: "Post", URL: "http://receiver.invalid/hook", Err: inner})
 	}
 	switch {
 	case err == nil:
@@ -284,6 +295,9 @@ func genC20Step(t *rapid.T, kinds []string) c20Step {
 		st.IgnoreCtx = rapid.IntRange(0, 3).Draw(t, "ignoreCtx") == 0
 	}
 	st.CutRec = rapid.IntRange(0, 3).Draw(t, "cutRec") != 0
+	if (st.Kind == "rec" || st.Kind == "unrec") && rapid.IntRange(0, 3).Draw(t, "ownTimeout") == 0 {
+		st.OwnTimeout = rapid.SampledFrom([]string{"deadline", "deadline", "canceled"}).Draw(t, "ownTimeoutKind")
+	}
 	return st
 }
 
@@ -513,5 +527,30 @@ func TestC20Retry(t *testing.T) {
 		Property: "C20", Name: "C20Retry",
 		Rule: "notify.RetryStage in a synctest bubble with a scripted notifier: per-attempt outcomes (ok / recoverable / unrecoverable / hang until the context is done; optional virtual duration 1 ms-200 s, honouring or ignoring the context) for 0-8 (thorough: 0-16) attempts plus a tail outcome for all further attempts; flush deadline already expired, 0-2 s, 2-60 s, 1-5 min or 5-15 min (always x.5 ms so that scripted instants never coincide with it); send_resolved on/off over batches of 1-5 (thorough: 1-12) firing/resolved alerts. Oracle: see c20JudgeAttempts (attempt payload, no start after the deadline, gaps within [250 ms, max(90 s, attempt duration)], nothing after success/unrecoverable, no give-up more than one backoff step before the deadline, error iff no success; a success reported after the deadline by a context-ignoring attempt is left free). Non-trivial: at least one attempt failed (fault reached), or the nothing-to-send path was taken.",
 		Gen:  genC20Retry, Exec: execC20Retry,
+	})
+}
+
+// C01Retry: "A failed delivery never discharges the obligation: it is retried inside the flush": the C20Retry scripts
+// judged for that clause alone. A recoverable failure, whatever its error wraps (also an integration's own client
+// timeout, i.e. context.DeadlineExceeded while the flush context is alive), is followed by another attempt as long as
+// the flush deadline is more than one backoff step away; and a flush that ends without a success reports an error, so
+// that nothing is recorded as sent.
+func TestC01Retry(t *testing.T) {
+	pbt.Run(t, pbt.Spec[c20RetryScenario]{
+		Property: "C01", Name: "C01Retry",
+		Rule: "the scenarios of C20Retry (notify.RetryStage in a bubble with a scripted notifier: per-attempt ok / recoverable / unrecoverable / hang, durations, errors that wrap context.DeadlineExceeded or context.Canceled although the flush context is alive; flush deadlines from already expired to 15 min). Judged here: the stage does not give up after a recoverable failure while the deadline is more than one backoff step away, and a flush without a successful attempt returns an error (kinds retry-gave-up-early, retry-failure-not-reported, harness). Non-trivial: as C20Retry.",
+		Gen:  genC20Retry,
+		Exec: func(sc c20RetryScenario) pbt.Result {
+			res := execC20Retry(sc)
+			kept := res.Violations[:0]
+			for _, v := range res.Violations {
+				switch v.Kind {
+				case "retry-gave-up-early", "retry-failure-not-reported", "harness":
+					kept = append(kept, v)
+				}
+			}
+			res.Violations = kept
+			return res
+		},
 	})
 }
